@@ -16,10 +16,11 @@ Definition gen_tsync : N := Eval vm_compute in
   | None => 99
   end.
 
-Definition gen_run (o:oracle) : list aev * ares := sandbox_run sandbox_funs sk_sandbox_main gen_tsync o.
+(** the command of the current tree *)
+Notation gen_run := (sandbox_run sandbox_funs sk_sandbox_main gen_tsync).
 
 Lemma gen_sandbox_ref : forall o, gen_run o = ref_run gen_tsync o.
-Proof. unfold gen_run. prove_sandbox_ref. Qed.
+Proof. prove_sandbox_ref. Qed.
 
 Lemma gen_skeleton_known : all_known sk_sandbox_main = true /\ all_known sk_sandbox_parsePolicy = true.
 Proof. split; vm_compute; reflexivity. Qed.
